@@ -529,6 +529,38 @@ def m_as_slice(eng, st, fr, t, name, rname, args):
     return _mkslice(data[it.fields[0].v:])
 
 
+RANGE = "core::ops::Range"
+
+
+def _range_of(eng, st, v):
+    v = eng.resolve(st, v)
+    n = 0
+    while isinstance(v, RefV) and n < 4:
+        v = eng.resolve(st, load(Loc(v.cell, v.path)))
+        n += 1
+    if isinstance(v, AggV) and v.kind.split("::")[-1] == "Range" and isinstance(eng.resolve(st, v.fields.get(0)), K) and isinstance(eng.resolve(st, v.fields.get(1)), K):
+        return v
+    return None
+
+
+def m_range_next(eng, st, fr, t, name, rname, args):
+    r = _range_of(eng, st, args[0])
+    if r is None:
+        return NotImplemented
+    lo, hi = eng.resolve(st, r.fields[0]).v, eng.resolve(st, r.fields[1]).v
+    if lo < hi:
+        r.fields[0] = K(lo + 1)
+        return mk_option(K(lo))
+    return mk_option(None)
+
+
+def m_range_into_iter(eng, st, fr, t, name, rname, args):
+    v = eng.resolve(st, args[0])
+    if isinstance(v, AggV) and v.kind.split("::")[-1] == "Range":
+        return v
+    return NotImplemented
+
+
 FROM_FN = "from-fn-iter"
 
 
@@ -612,6 +644,8 @@ def m_for_each(eng, st, fr, t, name, rname, args):
 
 def m_into_iter(eng, st, fr, t, name, rname, args):
     v = eng.resolve(st, args[0])
+    if isinstance(v, AggV) and v.kind.split("::")[-1] == "Range":
+        return v
     if isinstance(v, AggV) and v.kind in (BYTES_ITER, "bytes-split", "bytes-takewhile", FROM_FN):
         return v
     if _bytes_of(eng, st, args[0]) is not None:
@@ -640,9 +674,34 @@ def m_slice_first(eng, st, fr, t, name, rname, args):
 def m_slice_get(eng, st, fr, t, name, rname, args):
     a = _bytes_of(eng, st, args[0])
     i = eng.resolve(st, args[1])
+    if a is not None and isinstance(i, AggV) and i.kind.split("::")[-1] in ("Range", "RangeTo", "RangeFrom", "RangeFull", "RangeInclusive", "RangeToInclusive"):
+        kind = i.kind.split("::")[-1]
+        f = [eng.resolve(st, i.fields.get(k)) for k in range(2)]
+        lo, hi = 0, len(a)
+        if kind == "RangeTo" and isinstance(f[0], K):
+            hi = f[0].v
+        elif kind == "RangeFrom" and isinstance(f[0], K):
+            lo = f[0].v
+        elif kind == "Range" and isinstance(f[0], K) and isinstance(f[1], K):
+            lo, hi = f[0].v, f[1].v
+        elif kind == "RangeFull":
+            pass
+        else:
+            return NotImplemented
+        if lo > hi or hi > len(a):
+            return mk_option(None)
+        return mk_option(_mkslice(a[lo:hi]))
     if a is None or not (isinstance(i, K) and isinstance(i.v, int)):
         return NotImplemented
     return mk_option(RefV(Cell(K(a[i.v]), "byte@%d" % i.v))) if i.v < len(a) else mk_option(None)
+
+
+def m_slice_contains(eng, st, fr, t, name, rname, args):
+    a = _bytes_of(eng, st, args[0])
+    b = _byte_arg(eng, st, args[1])
+    if a is None or b is None:
+        return NotImplemented
+    return K(b in a)
 
 
 def m_slice_is_empty(eng, st, fr, t, name, rname, args):
@@ -882,7 +941,9 @@ FOLD_MODELS.update({
     "core::ops::Index::index": m_slice_index,
     "core::cmp::PartialEq::eq": m_eq_any,
     "core::cmp::PartialEq::ne": m_eq_any,
-    "core::iter::IntoIterator::into_iter": m_into_iter,
+    "core::iter::IntoIterator::into_iter": _or(m_range_into_iter, m_into_iter) if False else m_into_iter,
+    "core::iter::range::<impl core::iter::Iterator for core::ops::Range<A>>::next": m_range_next,
+    "core::iter::Iterator::next": m_range_next,
     "core::iter::from_fn": m_from_fn,
     "<core::iter::FromFn<F> as core::iter::Iterator>::next": m_fromfn_next,
     "core::iter::Iterator::for_each": m_for_each,
@@ -893,6 +954,7 @@ FOLD_MODELS.update({
     "core::slice::last": m_slice_first,
     "core::slice::get": m_slice_get,
     "core::slice::is_empty": m_slice_is_empty,
+    "core::slice::contains": m_slice_contains,
     "core::slice::split_first": m_split_first,
     "core::cmp::impls::eq": m_bytes_eq,
     "core::slice::ascii::eq_ignore_ascii_case": m_bytes_eq_nocase,
